@@ -386,7 +386,7 @@ class AgentWorld(object):
                 calls, tuple(conns), fp is None, self.peering.estab_protocol is None,
                 bool(fp is not None and fp.transport is not None and fp.transport.connected),
                 repr(_summ(rc['capability']['local'])), repr(_summ(rc['capability']['remote'])),
-                self.peering.peer_id, self.peering.bgp_id, self.handler.inter_mq.empty(), conn_ref, tuple(extra))
+                self.peering.peer_id, self.peering.bgp_id, tuple(_summ(x) for x in list(self.handler.inter_mq.queue)), conn_ref, tuple(extra))
 
 
 class ReplayDivergence(Exception):
